@@ -345,6 +345,16 @@ def _check_radon(ctx, case):
     for i, raw in enumerate(raws):
         scale = EPS32 * N * N * float(np.abs(raw).max())
         _judge(ctx, case, p0[i, 0], ref.column_sums(raw), scale, K_RADON, "radon_torch at 0 degrees vs column sums of the disc-masked image (image %d, given unmasked)" % i, "radon_theta0" + sfx)
+    if not large:
+        # history: the caller's own theta tensor, used in a call, refilled in place and used again - the second call must
+        # see the new angles (seeded change C07-12: cos/sin memo keyed on the identity of the theta tensor)
+        with ctx.sut(case, "radon_torch(theta buffer), buffer += 37 in place, radon_torch(same buffer)"):
+            rr.radon_torch(torch.from_numpy(imgs[0].copy()), theta=th)
+            th.add_(37)
+            again = rr.radon_torch(torch.from_numpy(imgs[0].copy()), theta=th)
+        again = _shape(case, _np(again), (A, N), "radon_torch(2-D image)", squeeze_ok=False)
+        scale = EPS32 * N * N * float(np.abs(imgs[0]).max())
+        _judge(ctx, case, again, ref.ref_radon(imgs[0], th.to(torch.float64).numpy().copy()), scale, K_RADON, "radon_torch vs skimage.radon after the caller's theta tensor was refilled in place", "radon_theta_reused")
     target(min(worst / K_RADON, 2.0), label="radon err/tol")
 
 
